@@ -240,6 +240,9 @@ def exc_key(e):
         tb = tb.tb_next
     if site is None:
         site = "harness"
+    if isinstance(e, RecursionError):
+        # where exactly the stack runs out depends on how deep the caller already was: the function is the site
+        site = site.split(":", 1)[0]
     return "exc:%s@%s" % (type(e).__name__, site)
 
 
